@@ -61,6 +61,14 @@ let run_case (ops : string list) : string list =
             ignore (req (OSet (cnum 1, str_of_string (Printf.sprintf "%s/%d" prefix i), JNum (str_of_string (string_of_int i)), false)))
           done;
           "ok"
+      | "churn" ->
+          let n = int_of_string t.(2) in
+          let last = ref "r:noanswer" in
+          for i = 0 to n - 1 do
+            ignore (req (ODelete (cnum 1, skey 3)));
+            last := res_str (req (OSet (cnum 1, skey 3, JNum (str_of_string (string_of_int i)), false))).o_res "ack"
+          done;
+          !last
       | "settle" -> disk := apply_all !disk !pending; pending := []; "ok"
       | "stop" ->
           let (s1, acts) = shutdown_actions (List.hd !cands) in
